@@ -1296,3 +1296,56 @@ Theorem C10_swift_key_keyword_fixed :
     good_C10_lex CSW Proofs.C10_SWKeys.k_text_before = true /\ c10_sw_recognise Proofs.C10_SWKeys.k_text_before = None.
 Proof. exact Proofs.C10_SWKeys.swift_key_keyword_fixed. Qed.
 Print Assumptions C10_swift_key_keyword_fixed.
+
+(* ---------------------------------------------------------------- Swift: case names of String-backed enums (fix 31) *)
+From TS Require Proofs.C10_SWUnitDigit.
+
+(* From the IR, String-backed (unit) enums: under ANY Unicode tables, for ANY variant whose Rust name is identifier-shaped
+   (a letter or `_`, then letters, digits, `_`), the case name the model gives it (swift.rs write_enum_variants, the `RustEnum::Unit` arm: the
+   camelCased name, with `_` in front when it starts with a digit - fix 31) is an identifier of the Swift grammar (identifier-head
+   identifier-characters) whenever it is not empty (a name made of underscores only camelCases to the empty string).  Before
+   fix 31 this failed for `_1st` (case name `1st`). *)
+Theorem C10_swift_unit_case_ident :
+  forall (uc : unicode) (v : rvariant) (st : sw_state) (sv : sw_variant) (st' : sw_state),
+    c10_ident_ok (original (vid (variant_shared v))) = true ->
+    sw_unit_variant_of uc v st = Ok (sv, st') -> swv_name sv <> []%list ->
+    Proofs.C10_SWGrammarTok.c10_sw_ident_ok (swv_name sv) = true.
+Proof. exact Proofs.C10_SWUnitDigit.sw_unit_case_ident. Qed.
+Print Assumptions C10_swift_unit_case_ident.
+
+(* the hypotheses are satisfiable: `_1st` gives the case name `_1st`, `FirstOne` gives `firstOne`; `1st` is no identifier *)
+Theorem C10_swift_unit_case_ident_nonvacuous :
+  exists sv sv' st st',
+    c10_ident_ok (lit "_1st") = true /\
+    sw_unit_variant_of uc_exec (VUnit {| vid := Proofs.C10_SWGrammarFile.w_id "_1st"; vcomments := []%list |}) false = Ok (sv, st) /\
+    swv_name sv = lit "_1st" /\
+    sw_unit_variant_of uc_exec (VUnit {| vid := Proofs.C10_SWGrammarFile.w_id "FirstOne"; vcomments := []%list |}) false = Ok (sv', st') /\
+    swv_name sv' = lit "firstOne" /\
+    Proofs.C10_SWGrammarTok.c10_sw_ident_ok (lit "1st") = false.
+Proof. exact Proofs.C10_SWUnitDigit.sw_unit_case_ident_nonvacuous. Qed.
+Print Assumptions C10_swift_unit_case_ident_nonvacuous.
+
+(* regression pin of fix 31 (the finding C10-swift-unit-digit-case - a variant of a String-backed enum whose camelCased name starts
+   with a digit was printed bare: `case 1st = "_1st"` - is FIXED in /repo).  The former witness `pub enum U { _1st, _2nd }` is in
+   dom_C10 and in no finding class; the model prints exactly u_text (`case _1st`, `case _2nd`: the case name equals the wire name
+   again, no raw value), which is lexically good and accepted by the recogniser as 2 declarations; the observation reports the case
+   names `_1st`, `_2nd` and the same wire names; with `#[serde(rename = "x")]` on the first variant the model prints exactly
+   u_text_renamed (`case _1st = "x"`), accepted as well, wire names `x`, `_2nd`.  The text the unrepaired code printed
+   (`case 1st = "_1st"`, `case 2nd = "_2nd"`) is lexically good but REJECTED by the recogniser. *)
+Theorem C10_swift_unit_digit_fixed :
+  exists fd fdr,
+    Proofs.C10_SWFile.c10_sw_cfg_ok Proofs.C10_SWUnitDigit.u_cfg = true /\ dom_C10 CSW Proofs.C10_SWUnitDigit.u_prog = true /\
+    known_C10 CSW [] Proofs.C10_SWUnitDigit.u_prog = [] /\
+    sw_generate uc_exec Proofs.C10_SWUnitDigit.u_cfg Proofs.C10_SWUnitDigit.u_prog = Ok Proofs.C10_SWUnitDigit.u_text /\
+    good_C10_lex CSW Proofs.C10_SWUnitDigit.u_text = true /\ c10_sw_recognise Proofs.C10_SWUnitDigit.u_text = Some 2%nat /\
+    sw_file_decls uc_exec Proofs.C10_SWUnitDigit.u_cfg Proofs.C10_SWUnitDigit.u_prog = Ok fd /\
+    List.map (fun d => List.map vd_name (d_variants d)) (fd_decls fd) = [[lit "_1st"; lit "_2nd"]]%list /\
+    List.map (fun d => List.map vd_wire (d_variants d)) (fd_decls fd) = [[lit "_1st"; lit "_2nd"]]%list /\
+    dom_C10 CSW Proofs.C10_SWUnitDigit.u_prog_renamed = true /\ known_C10 CSW [] Proofs.C10_SWUnitDigit.u_prog_renamed = [] /\
+    sw_generate uc_exec Proofs.C10_SWUnitDigit.u_cfg Proofs.C10_SWUnitDigit.u_prog_renamed = Ok Proofs.C10_SWUnitDigit.u_text_renamed /\
+    good_C10_lex CSW Proofs.C10_SWUnitDigit.u_text_renamed = true /\ c10_sw_recognise Proofs.C10_SWUnitDigit.u_text_renamed = Some 2%nat /\
+    sw_file_decls uc_exec Proofs.C10_SWUnitDigit.u_cfg Proofs.C10_SWUnitDigit.u_prog_renamed = Ok fdr /\
+    List.map (fun d => List.map vd_wire (d_variants d)) (fd_decls fdr) = [[lit "x"; lit "_2nd"]]%list /\
+    good_C10_lex CSW Proofs.C10_SWUnitDigit.u_text_before = true /\ c10_sw_recognise Proofs.C10_SWUnitDigit.u_text_before = None.
+Proof. exact Proofs.C10_SWUnitDigit.swift_unit_digit_fixed. Qed.
+Print Assumptions C10_swift_unit_digit_fixed.
